@@ -53,6 +53,12 @@ package errors
 //@   ensures statusCode(err) == codes.Unknown && has(errorsToCode, err) ==> statusCode(r0) == errorsToCode[err]
 //@   ensures statusCode(err) == codes.Unknown && !has(errorsToCode, err) ==> (statusCode(r0) == codes.Internal && forall(e, error, has(errorsToCode, e) ==> !errIs(err, e))) || exists(e, error, has(errorsToCode, e) && errIs(err, e) && statusCode(r0) == errorsToCode[e])
 
+// embedding an object wraps the error (fmt %w): every class of err is still a class of the result
+//@ func EmbedObject(o any, err error) error
+//@   props C19
+//@   maypanic
+//@   ensures r0 != nil && forall(t, error, errIs(err, t) ==> errIs(r0, t))
+
 // ---- the property, as a lemma over the contracts above ----
 // err is-a exactly the class cls (which has a gRPC code), through any wrapping; it is not itself a status error
 //@ lemma func lemmaWrapKeepsClass(err error, cls error, other error) (bool, bool, error, error)
